@@ -16,6 +16,7 @@ import Frrs.Sanity
 import Frrs.Finalize
 import Frrs.Analyze
 import Frrs.Detect
+import Frrs.ShortHash
 namespace Frrs.Ops
 open Frrs Frrs.Wire
 
@@ -80,6 +81,10 @@ def parseFOpts (opts : String) : Option FOpts := do
   let stripF ← (match kv opts "stripfile" with
     | none => some []
     | some v => do let c ← decBytes v; parseStripIds c)
+  -- a commit-map left in the debug directory by an earlier run: read by the model's own reader
+  let shm : Option (Bytes → Bytes) ← (match kv opts "shmap" with
+    | none => some none
+    | some v => do let c ← decBytes v; pure ((ShMap.ofFile c).map fun m => m.rewrite))
   let orElse {α} (a b : Option α) : Option α := match a with | some x => some x | none => b
   let oi (k : String) : Option (Option Int) := match kv opts k with
     | none => some none | some "none" => some none | some v => v.toInt?.map some
@@ -90,6 +95,7 @@ def parseFOpts (opts : String) : Option FOpts := do
     stripIds := strip ++ stripF
     shaOversize := fun sha => oversz.contains sha
     msgRules := orElse msgF (← optPairs opts "msg")
+    shortHash := shm
     blobRules := orElse blobF (← optPairs opts "blob")
     mailmap := orElse mmF mm
     emailRules := orElse emailF (← optPairs opts "email")
@@ -237,7 +243,9 @@ def dispatch (op : String) (args : List String) : Option String :=
   | "oracle-e2e", [opts, stream, filtered, cmap, rmap] => do
       let some o := parseFOpts opts | pure "ok"
       let x : OIn := { o := o, src := importBytes (← decBytes stream), dst := importBytes (← decBytes filtered),
-                       cmap := parseMapLines (← decBytes cmap), rmap := parseMapLines (← decBytes rmap), byOid := true }
+                       cmap := parseMapLines (← decBytes cmap), rmap := parseMapLines (← decBytes rmap), byOid := true,
+                       prior := (match kv opts "shmap" with | some v => (decBytes v).bind ShMap.ofFile | none => none),
+                       dynIds := kv opts "shdyn" == some "1" }
       if x.src.failed.isSome then pure ("SRC-IMPORT-FAILED " ++ x.src.failed.getD "") else
       let errs := oracleAll x
       pure (if errs.isEmpty then "ok" else "FAIL " ++ (" || ".intercalate (errs.take 6)).replace "\n" " ")
@@ -304,6 +312,21 @@ def dispatch (op : String) (args : List String) : Option String :=
   | "looksbinary", [b] => do pure (encBool (looksBinary (← decBytes b)))
   | "detect", [ms] => do pure (encList (detect (← decList ms)))
   | "needsescape", [v] => do pure (encBool (needsEscape (← decBytes v)))
+  -- limits.rs / message.rs
+  | "dataheader", [line] => do
+      pure (match parseDataHeader (← decBytes line) with | some n => toString n | none => "err")
+  | "shorthash", [file, script] => do
+      match ShMap.ofFile (← decBytes file) with
+      | none => pure "nomap"
+      | some m0 =>
+        let (_, outs) := (← decList script).foldl (fun (acc : ShMap × List Bytes) (it : Bytes) =>
+          match it with
+          | 0x55 :: r => (match splitAtFirst (fun b => b == 0) r with
+              | some (o, n) => (acc.1.update o n, acc.2)
+              | none => acc)
+          | 0x52 :: t => (acc.1, acc.2 ++ [acc.1.rewrite t])
+          | _ => acc) (m0, [])
+        pure (encList outs)
   | "import", [stream] => do
       let s := importBytes (← decBytes stream)
       pure (match s.failed with | some w => "failed: " ++ w | none => "ok commits=" ++ toString s.nCommits ++ " refs=" ++ toString (s.refs.filter (·.2.isSome)).length)
